@@ -186,7 +186,7 @@ fn first_diff(a: &LibSummary, b: &LibSummary) -> Option<(String, String)> {
 }
 
 /// Independent raw -> proto writer (used to build messages for the proto -> raw -> proto direction). Cells in creation (dependency) order.
-fn proto_of(g: &GenRaw) -> Result<proto::Library, String> {
+pub fn proto_of(g: &GenRaw) -> Result<proto::Library, String> {
     let layers = g.lib.layers.read().map_err(|_| "lock")?;
     let mut p = proto::Library::default();
     p.domain = g.lib.name.clone();
